@@ -15,6 +15,74 @@ UF = {"sqrt": "Usqrt", "exp": "Uexp", "log": "Uln", "tanh": "Utanh", "sin": "Usi
 BIN = {"add": "EAdd", "sub": "ESub", "mul": "EMul", "div": "EDiv"}
 
 
+# ------------------------------------------------------------------------------------------------
+# graph cuts: detach(), .data and everything computed under torch.no_grad() is wrapped in a "detach" node, which
+# becomes ECut in the AD language (value unchanged, nothing flows through it in reverse mode)
+# ------------------------------------------------------------------------------------------------
+def _cut(e):
+    e = E.const(e) if not isinstance(e, (bool, np.bool_)) else e
+    if not isinstance(e, E) or e.is_const() or (e.op == "fn" and e.args[0] == "detach"):
+        return e
+    return E("fn", "detach", e)
+
+
+def _cut_array(a):
+    out = np.empty(a.shape, dtype=object)
+    for idx in np.ndindex(a.shape):
+        v = a[idx]
+        out[idx] = _cut(v) if isinstance(v, E) else v
+    if a.ndim == 0:
+        out[()] = _cut(a[()]) if isinstance(a[()], E) else a[()]
+    return out
+
+
+class cut_tracking:
+    """temporarily give tools/symtorch.py graph-cut semantics (restored on exit; other units are not affected)"""
+    depth = 0
+
+    def __enter__(self):
+        T, ng = st.Tensor, st.no_grad
+        self.saved = (T.__init__, T.detach, T.__dict__.get("data"), ng.__enter__, ng.__exit__, ng.__call__)
+        orig_init = T.__init__
+
+        def init(t, a, dtype=None, is_bool=False):
+            orig_init(t, a, dtype=dtype, is_bool=is_bool)
+            if cut_tracking.depth > 0 and t.dtype is not st.bool_:
+                t.a = _cut_array(t.a)
+        T.__init__ = init
+        T.detach = lambda t: t._new(_cut_array(t.a))
+        T.data = property(lambda t: t._new(_cut_array(t.a)))
+
+        def enter(c):
+            cut_tracking.depth += 1
+            return c
+
+        def exit_(c, *a):
+            cut_tracking.depth -= 1
+            return False
+
+        def call(c, f):
+            def g(*a, **k):
+                cut_tracking.depth += 1
+                try:
+                    return f(*a, **k)
+                finally:
+                    cut_tracking.depth -= 1
+            return g
+        ng.__enter__, ng.__exit__, ng.__call__ = enter, exit_, call
+        return self
+
+    def __exit__(self, *a):
+        T, ng = st.Tensor, st.no_grad
+        T.__init__, T.detach, data, ng.__enter__, ng.__exit__, ng.__call__ = self.saved
+        if data is None:
+            del T.data
+        else:
+            T.data = data
+        cut_tracking.depth = 0
+        return False
+
+
 def to_ad(e, index, memo):
     k = id(e)
     if k in memo:
@@ -35,6 +103,8 @@ def to_ad(e, index, memo):
         if name == "tan":
             a = to_ad(e.args[1], index, memo)
             r = f"(EDiv (EU Usin {a}) (EU Ucos {a}))"
+        elif name == "detach":
+            r = f"(ECut {to_ad(e.args[1], index, memo)})"
         elif name in UF:
             r = f"(EU {UF[name]} {to_ad(e.args[1], index, memo)})"
         else:
@@ -71,7 +141,8 @@ def leaves(fam):
 
 def trace(fam, m):
     ts, index = leaves(fam)
-    out = fam.call(m, *ts)
+    with cut_tracking():
+        out = fam.call(m, *ts)
     a = out.a if isinstance(out, st.Tensor) else np.array(out, dtype=object)
     st._check_init(a)
     flat = [E.const(x) for x in a.reshape(-1)]
